@@ -9,7 +9,13 @@ EXTENDS Integers, Sequences, TLC, Json, IOUtils
 Trace == ndJsonDeserialize(IOEnv.VERIF_TRACE)
 VARIABLE l
 Init == l = 1 /\ TLCSet(1, 1)
-Viol(r) ==
+\* walk: /callback is handed a `state` naming a sign-in URL whose nested redirect is signed as r.nested says; the
+\* browser then follows its redirects.  A code may be attached only when that nested redirect was signed by the
+\* proxy and is fresh - whatever the authenticator itself did to the URL on the way.
+WalkViol(r) ==
+   (IF r.acted /\ r.nested # "valid" THEN {"C07_GatedAction"} ELSE {})
+   \cup (IF ~r.acted /\ r.nested = "valid" THEN {"HARNESS_HonestWalkRefused"} ELSE {})
+Viol(r) == IF r.ev = "walk" THEN WalkViol(r) ELSE
    (IF r.acted2 /\ r.age2 > 300 THEN {"C07_GatedAction"} ELSE {})
    \cup (IF ~r.acted1 /\ r.age1 <= 299 THEN {"HARNESS_FreshRequestNotActedOn"} ELSE {})
 Step == /\ l <= Len(Trace)
